@@ -33,6 +33,35 @@ enum Answer {
     Error(u64),
 }
 
+/// The consumer's own error value: its *type* varies with the script (a private type, the parser's
+/// own state type, the loader's and the decoder's error types, a nested consumer error, std types) -
+/// the statement lets the consumer answer with any error value and promises to carry exactly that one.
+fn make_error(v: u64) -> Box<dyn error::Error + Send + Sync> {
+    match v % 9 {
+        0 | 1 => Box::new(Payload(v)),
+        2 => Box::new(ParseState::ConsumerStopRequested),
+        3 => Box::new(ParseState::HeaderIncorrect),
+        4 => Box::new(ParseState::ConsumerError(Box::new(Payload(v)))),
+        5 => Box::new(ParseState::OperandExpected(v as usize & 0xffff, 1)),
+        6 => Box::new(dr::Error::NestedFunction),
+        7 => Box::new(binary::DecodeError::StreamExpected(v as usize & 0xffff)),
+        _ => Box::new(fmt::Error),
+    }
+}
+/// Does the boxed error the parse returned hold exactly the value `make_error(v)` made?
+fn same_error(e: &(dyn error::Error + Send + Sync + 'static), v: u64) -> bool {
+    match v % 9 {
+        0 | 1 => e.downcast_ref::<Payload>() == Some(&Payload(v)),
+        2 => matches!(e.downcast_ref::<ParseState>(), Some(ParseState::ConsumerStopRequested)),
+        3 => matches!(e.downcast_ref::<ParseState>(), Some(ParseState::HeaderIncorrect)),
+        4 => matches!(e.downcast_ref::<ParseState>(), Some(ParseState::ConsumerError(inner)) if inner.downcast_ref::<Payload>() == Some(&Payload(v))),
+        5 => matches!(e.downcast_ref::<ParseState>(), Some(ParseState::OperandExpected(a, 1)) if *a == (v as usize & 0xffff)),
+        6 => matches!(e.downcast_ref::<dr::Error>(), Some(dr::Error::NestedFunction)),
+        7 => matches!(e.downcast_ref::<binary::DecodeError>(), Some(binary::DecodeError::StreamExpected(a)) if *a == (v as usize & 0xffff)),
+        _ => e.downcast_ref::<fmt::Error>().is_some(),
+    }
+}
+
 struct Scripted {
     log: Vec<Ev>,
     /// answer `what` at callback position `at` (0-based); Continue otherwise
@@ -48,7 +77,7 @@ impl Scripted {
                 self.answered = true;
                 match a {
                     Answer::Stop => ParseAction::Stop,
-                    Answer::Error(v) => ParseAction::Error(Box::new(Payload(v))),
+                    Answer::Error(v) => ParseAction::Error(make_error(v)),
                 }
             }
             _ => ParseAction::Continue,
@@ -139,7 +168,7 @@ pub fn check_binary(bytes: &[u8], positions: &[usize], st: &mut Stats, decoded: 
     }
     // scripted stops / errors at every requested position
     for &p in positions {
-        for (k, ans) in [Answer::Stop, Answer::Error(0xabc0 + p as u64)].into_iter().enumerate() {
+        for (k, ans) in [Answer::Stop, Answer::Error(0xabc0 + p as u64 + (hash64(bytes) % 9))].into_iter().enumerate() {
             st.evaluations += 1;
             let (log, r) = run_scripted(bytes, Some((p, ans)), k == 1)?;
             if p < base.len() {
@@ -150,9 +179,10 @@ pub fn check_binary(bytes: &[u8], positions: &[usize], st: &mut Stats, decoded: 
                 match (ans, &r) {
                     (Answer::Stop, Err(ParseState::ConsumerStopRequested)) => {}
                     (Answer::Error(v), Err(ParseState::ConsumerError(e))) => {
-                        if e.downcast_ref::<Payload>() != Some(&Payload(v)) {
-                            return Err(wrap(Fail::new("consumer-error-value", "payload", format!("ConsumerError does not carry the consumer's own error value ({})", e))));
+                        if !same_error(e.as_ref(), v) {
+                            return Err(wrap(Fail::new("consumer-error-value", format!("payload-kind-{}", v % 9), format!("ConsumerError does not carry the consumer's own error value (kind {} of make_error): it holds {:?}", v % 9, e))));
                         }
+                        st.count(&format!("consumer_error_kind_{}", v % 9));
                     }
                     _ => {
                         return Err(wrap(Fail::new(
@@ -241,7 +271,7 @@ pub fn finish(ctx: &Ctx) -> i32 {
     crate::engine::finish(
         ctx,
         Finish {
-            rule: "cases: binaries from the module generators (well-formed of N instructions, or with byte-level faults, or bad header) x a scripted consumer that answers Continue until callback position p and then Stop or Error(payload): EVERY p from 0 to N+3 on small modules, random p on larger ones; parse_bytes and parse_words alternate. Oracle: the always-continue callback log equals initialize, header, one call per instruction of the reference parser's well-formed prefix, finalize iff the whole binary parsed; with a script at p the log equals the baseline's first p+1 callbacks (nothing after the answer), the result is ConsumerStopRequested / ConsumerError whose boxed error downcasts to the script's own payload; a script that never fires changes nothing; load_bytes yields a module only when the parse completes. non-trivial = scripted answer at a position 1 <= p < last callback; distinct = (binary hash, p, answer kind).",
+            rule: "cases: binaries from the module generators (well-formed of N instructions, or with byte-level faults, or bad header) x a scripted consumer that answers Continue until callback position p and then Stop or Error(payload): EVERY p from 0 to N+3 on small modules, random p on larger ones; parse_bytes and parse_words alternate. Oracle: the always-continue callback log equals initialize, header, one call per instruction of the reference parser's well-formed prefix, finalize iff the whole binary parsed; with a script at p the log equals the baseline's first p+1 callbacks (nothing after the answer), the result is ConsumerStopRequested / ConsumerError whose boxed error downcasts to exactly the value the script answered with (nine kinds of error value: a private type, the parser's own state type incl. stop-requested and a nested consumer error, the loader's and decoder's error types, fmt::Error); a script that never fires changes nothing; load_bytes yields a module only when the parse completes. non-trivial = scripted answer at a position 1 <= p < last callback; distinct = (binary hash, p, answer kind).",
             assumptions: vec!["relation of the baseline to the grammar is C03's oracle (run on every binary here as well)".into()],
             trusted_base: vec!["reference parser R1".into(), "scripted consumer".into()],
         },
